@@ -134,6 +134,11 @@ func execC19(e *Env, p *Plan) error {
 		{"right-token", map[string]string{"X-Zeno-Auth-Token": c19Pass}, nil, open || pwSet},
 		{"forged-cookie", nil, []*http.Cookie{forged}, open},
 		{"tampered-cookie", nil, []*http.Cookie{tampered}, open},
+		// near misses of the static token: the header present but empty, a
+		// prefix of the token, the token in another case
+		{"empty-token", map[string]string{"X-Zeno-Auth-Token": ""}, nil, open},
+		{"token-prefix", map[string]string{"X-Zeno-Auth-Token": c19Pass[:len(c19Pass)-1]}, nil, open},
+		{"token-other-case", map[string]string{"X-Zeno-Auth-Token": strings.ToUpper(c19Pass)}, nil, open},
 		{"session-cookie", nil, []*http.Cookie{goodCookie}, open || (cookieLive && ghMode == "member")},
 		// once more after valid credentials were seen: nothing a handler
 		// remembers about an authorised caller may open the door for the next
